@@ -49,7 +49,13 @@ def _sig_profile(case, params):
 
 
 def _sig_class(case, params):
-    return case.get("kind") == "spec" and case.get("spec_class") == params.get("cls") and not case.get("explained_by")
+    """Exactly the open defect's family: the RFC reference stops at a TEXT/BINARY frame that arrives while a fragmented
+    message is open (class data-in-message), the implementation agreed with the reference up to that frame, AND from
+    there on the implementation behaves exactly like the faithful Coq model (whose only deviation from the reference
+    is that defect: C12_refines_spec_partial).  Any other deviation (e.g. a continuation without a started message
+    being accepted) - also after an interleaved frame - is a new violation."""
+    return (case.get("kind") == "spec" and case.get("spec_class") == params.get("cls")
+            and case.get("prefix_agrees") is True and case.get("matches_model") is True)
 
 
 def _sig_stale(case, params):
@@ -506,17 +512,20 @@ _DEVIATIONS: list = []
 
 
 def flush_deviations(ctx, exe):
-    """Report every recorded deviation from the RFC reference decoder.  The only family that is an open finding is
-    the interleaved data frame: the reference stops with class data-in-message and the implementation agreed with it
-    up to that point; it is recognised by the signature, everything else is a new violation."""
+    """Report every recorded deviation from the RFC reference decoder.  The only family that is an open finding is the
+    interleaved data frame (see _sig_class); everything else is a new violation."""
     global _DEVIATIONS
     devs, _DEVIATIONS = _DEVIATIONS, []
-    for case, cfg, stream, obs, (sev, sst, scls) in devs:
-        cls = scls if (scls == "data-in-message" and obs[0][:len(sev)] == sev) else None
-        ctx.count("deviation:" + (cls or "UNEXPLAINED"))
-        ctx.violation(dict(case, kind="spec", explained_by="", spec_class=cls, spec=[sev, sst, scls], impl=[obs[0], obs[1]]),
+    for case, cfg, stream, obs, (sev, sst, scls), mobs in devs:
+        prefix = obs[0][:len(sev)] == sev
+        same = (obs[0], obs[1]) == (mobs[0], mobs[1])
+        known = scls == "data-in-message" and prefix and same
+        ctx.count("deviation:" + ("data-in-message" if known else "UNEXPLAINED"))
+        ctx.violation(dict(case, kind="spec", spec_class=scls, prefix_agrees=prefix, matches_model=same,
+                           spec=[sev, sst, scls], impl=[obs[0], obs[1]], model=[mobs[0], mobs[1]]),
                       f"reader differs from the RFC 6455/7692 reference decoder: impl delivered {obs[0]} then {obs[1]}; "
-                      f"reference delivers {sev} then {sst}" + (f" ({scls})" if scls else ""))
+                      f"reference delivers {sev} then {sst}" + (f" ({scls})" if scls else "")
+                      + ("" if same else f"; the faithful model delivers {mobs[0]} then {mobs[1]}"))
 
 
 # ------------------------------------------------------------------------------------------------
@@ -562,6 +571,20 @@ def gen_streams(ctx):
                 continue
             frs = fixed[:pos] + bad + fixed[pos:]
             out.append(("pos:" + name, b"".join(frs), False, sum(len(f) for f in frs)))
+    # a message whose non-final fragments are all empty, then ordinary frames, then a stray continuation, then more frames
+    for _ in range(6 if ctx.quick else 60):
+        op = rng.choice([1, 2])
+        frs = [frame(op, b"", fin=0, mask=rmask(rng))]
+        for _ in range(rng.randint(0, 2)):
+            frs.append(frame(0, b"", fin=0, mask=rmask(rng)))
+            if rng.random() < 0.3:
+                frs.append(frame(9, rpayload(rng)))
+        frs.append(frame(0, rng.choice([b"", b"x", b"hi"]), fin=1, mask=rmask(rng)))
+        for _ in range(rng.randint(0, 2)):
+            frs += [frame(rng.choice([9, 10]), rpayload(rng)), frame(rng.choice([1, 2]), rng.choice(TEXTS[1:5]))][: rng.randint(1, 2)]
+        frs.append(frame(0, b"y", fin=rng.choice([0, 1, 1]), mask=rmask(rng)))
+        frs += [frame(2, b"z"), frame(0, b"w")][: rng.randint(0, 2)]
+        out.append(("empty-frags-then-stray-cont", b"".join(frs), False, sum(len(f) for f in frs)))
     # size boundaries: unfragmented and fragmented, plain and inflated
     for n in ([0, 1, 5, 124, 125, 126, 127, 300] if ctx.quick else [0, 1, 2, 5, 124, 125, 126, 127, 128, 300, 65535, 65536, 70000]):
         p = bytes(rng.randrange(256) for _ in range(n))
@@ -615,7 +638,10 @@ def check_case(ctx, exe, label, cfg, stream, seglist, spec_rfc, answers):
                 break
         # oracle 1: same outcome as the RFC reference decoder on the whole stream (classified in one batch later)
         if (allev, status) != (sev, sst):
-            _DEVIATIONS.append((case, cfg, stream, (allev, status), (sev, sst, scls)))
+            mev = [e for evs_, _, _ in model for e in evs_]
+            mlast = model[-1][1] if model else "L"
+            mstatus = mlast[2:] if mlast.startswith("X:") else "pending"
+            _DEVIATIONS.append((case, cfg, stream, (allev, status), (sev, sst, scls), (mev, mstatus)))
         # oracle 3: inflation is bounded by the limit (memory under decompression)
         if cfg[0] and any(n > cfg[0] + 1 for _, n in INFLATED):
             ctx.violation(dict(case, kind="inflate-unbounded", inflated=max(n for _, n in INFLATED)),
@@ -992,8 +1018,13 @@ def replay(ctx, case):
         model = fw.run_model(exe, [run_line(cfg, segs), spec_line("rfc", cfg, stream), spec_line("aio", cfg, stream)])
         sev, sst, scls = parse_spec(model[1])
         bad = []
+        mrun0 = parse_run(model[0])
+        mev = [e for evs_, _, _ in mrun0 for e in evs_]
+        mstatus = mrun0[-1][1][2:] if mrun0 and mrun0[-1][1].startswith("X:") else "pending"
         if (allev, status) != (sev, sst):
-            bad.append("differs from reference decoder")
+            fam = scls == "data-in-message" and allev[:len(sev)] == sev and (allev, status) == (mev, mstatus)
+            bad.append("differs from reference decoder" + (" (open finding: data frame inside a fragmented message)" if fam
+                                                            else " (NOT explained by the open finding)"))
         if (allev, status) != (one[1], one[2]):
             bad.append("depends on segmentation")
         if stale is not None:
